@@ -191,6 +191,14 @@ func FamWire[T any](c Codec[T], seed int64) WireRecord {
 	add(SysCall{Tag: 814, From: "A", Method: "Call0", Ret: canon(v14), Err: errText(e14), Done: true})
 	e15 := p.rb.Notify0(ctx, 815)
 	add(SysCall{Tag: 815, From: "B", Method: "Notify0", Err: errText(e15), Done: true})
+	// a nil callable is an argument like any other: one element per non-context argument
+	e16 := p.ra.Keep(ctx, 816, nil)
+	add(SysCall{Tag: 816, From: "A", Method: "Keep", Err: errText(e16), Done: true})
+	// a handler whose only result has an error interface type of the application's own
+	e17 := p.rb.FailOwn(ctx, 817, 7)
+	add(SysCall{Tag: 817, From: "B", Method: "FailOwn", Err: errText(e17), Done: true})
+	e18 := p.ra.FailOwn(ctx, 818, 0)
+	add(SysCall{Tag: 818, From: "A", Method: "FailOwn", Err: errText(e18), Done: true})
 
 	for _, q := range []struct {
 		name  string
@@ -247,6 +255,8 @@ func FamForeign(seed int64) WireRecord {
 	send(910, `{"call":"c10","function":"Greet","args":[910,"x"]}`, "function with a value and no error")
 	send(921, `{"call":"c21","function":"Svc.Hello","args":[921]}`, "nested service held in an interface-typed field")
 	send(922, `{"call":"c22","function":"Kv.Size","args":[922]}`, "nested service of a named map type")
+	send(924, `{"call":"c24","function":"FailOwn","args":[924,5]}`, "function whose only result has an error interface type of the application's own (error outcome)")
+	send(925, `{"call":"c25","function":"FailOwn","args":[925,0]}`, "function whose only result has an error interface type of the application's own (nil outcome)")
 	// node A calls the foreign peer passing a function whose parameter is a list of lists; the peer invokes it
 	// with a hand-written frame that has a null element, then answers the call
 	if WaitRemotes(node, 1) {
@@ -403,7 +413,16 @@ func FamFraming(seed int64, variant int) SysRecord {
 			return nil
 		}
 		go func() { errc <- node.Reg.LinkStream(ctx, enc, c.NewDecoder(in), c.Marshal, c.Unmarshal, nil) }()
+		nenv := 0
 		sendReq = func(req, res string) {
+			// keep-alive envelopes that carry neither member (absent, or both null) between the real ones: they are
+			// skipped, the stream goes on - the message API has no counterpart, so nothing may change
+			nenv++
+			if nenv%2 == 0 {
+				in.Write([]byte(`{}`))
+			} else {
+				in.Write([]byte(`{"request":null,"response":null}`))
+			}
 			switch {
 			case req != "" && res != "" && variant == 2:
 				in.Write([]byte(fmt.Sprintf(`{"request":%s,"response":%s}`, req, res)))
